@@ -67,7 +67,8 @@ def run(prog, R):
 
 def refill_names(prog):
     from rules_err import refill_fn
-    return set(x.key for x in refill_fn(prog))
+    from rules_err import refill_family
+    return set(x.key for x in refill_family(prog))
 
 
 def scan_shape(prog, b, refills):
